@@ -219,6 +219,7 @@ class Facts:
                         refnames.normalise(o)
                         refnames.canonical_equalities(o)
                         refnames.canonical_compound(o)
+                        refnames.canonical_emplace(o)
                     self.fns.append(o)
                 elif e == "rec":
                     # keep the definition with most fields (there is only one per q unless templates/specs)
